@@ -293,3 +293,164 @@ func filterDiff(pb []byte, files []string) []byte {
 	}
 	return out.Bytes()
 }
+
+// cmdMatrix: `sxlint matrix -kind seeded|benign` applies every stored change through
+// packages.Overlay (the working tree of /repo is not touched) and runs all registered checks on
+// it, in parallel. seeded: writes seeded/MATRIX.md and caught_by in each meta.json, exit 1 if a
+// change is not reported by the check of its own property. benign: exit 1 on any alarm.
+func cmdMatrix(args []string) int {
+	kind, repo, verif := "seeded", "/repo", "/verif"
+	for i := 0; i+1 < len(args); i += 2 {
+		switch args[i] {
+		case "-kind":
+			kind = args[i+1]
+		case "-repo":
+			repo = args[i+1]
+		case "-verif":
+			verif = args[i+1]
+		}
+	}
+	patches, _ := filepath.Glob(filepath.Join(verif, kind, "*", "patch.diff"))
+	sort.Strings(patches)
+	var ids []string
+	for k := range props {
+		ids = append(ids, k)
+	}
+	sort.Strings(ids)
+	self, _ := os.Executable()
+	tmp, err := os.MkdirTemp("", "sxlint-matrix-")
+	if err != nil {
+		fmt.Println(err)
+		return 2
+	}
+	defer os.RemoveAll(tmp)
+	base := map[string]map[string]bool{}
+	for _, id := range ids {
+		base[id] = map[string]bool{}
+		out, _ := exec.Command(self, "check", "-prop", id, "-tier", "quick", "-repo", repo, "-verif", verif, "-no-evidence", "-fail-keys").Output()
+		for _, l := range strings.Split(string(out), "\n") {
+			if strings.HasPrefix(l, "FAIL-KEY ") {
+				base[id][strings.TrimPrefix(l, "FAIL-KEY ")] = true
+			}
+		}
+	}
+	type cell struct {
+		rules  []string
+		status string
+	}
+	res := make([]map[string]cell, len(patches))
+	var wg sync.WaitGroup
+	sem := make(chan struct{}, 14)
+	var mu sync.Mutex
+	for i, pf := range patches {
+		res[i] = map[string]cell{}
+		dir := filepath.Join(tmp, fmt.Sprint(i))
+		os.MkdirAll(dir, 0o755)
+		overlays, why := materialisePatch(Variant{Patch: pf}, repo, dir)
+		for _, id := range ids {
+			if overlays == nil {
+				res[i][id] = cell{status: "skipped: " + why}
+				continue
+			}
+			wg.Add(1)
+			go func(i int, id string) {
+				defer wg.Done()
+				sem <- struct{}{}
+				defer func() { <-sem }()
+				a := []string{"check", "-prop", id, "-tier", "quick", "-repo", repo, "-verif", verif, "-no-evidence"}
+				for tgt, f := range overlays {
+					a = append(a, "-overlay", tgt+"="+f)
+				}
+				out, _ := exec.Command(self, a...).CombinedOutput()
+				c := cell{}
+				if strings.Contains(string(out), "OVERLAY-INVALID") {
+					c.status = "invalid"
+				}
+				seen := map[string]bool{}
+				for _, l := range strings.Split(string(out), "\n") {
+					if strings.HasPrefix(l, "FAIL-KEY ") {
+						k := strings.TrimPrefix(l, "FAIL-KEY ")
+						if !base[id][k] {
+							rule := k
+							if j := strings.Index(k, "|"); j >= 0 {
+								rule = k[:j]
+							}
+							if !seen[rule] {
+								seen[rule] = true
+								c.rules = append(c.rules, rule)
+							}
+						}
+					}
+				}
+				mu.Lock()
+				res[i][id] = c
+				mu.Unlock()
+			}(i, id)
+		}
+	}
+	wg.Wait()
+	exit := 0
+	var md strings.Builder
+	md.WriteString("| " + kind + " change | property | reported by (rules) |\n|---|---|---|\n")
+	for i, pf := range patches {
+		name := filepath.Base(filepath.Dir(pf))
+		var caught, rules []string
+		for _, id := range ids {
+			c := res[i][id]
+			if strings.HasPrefix(c.status, "skipped") || c.status == "invalid" {
+				rules = []string{c.status}
+				break
+			}
+			if len(c.rules) > 0 {
+				caught = append(caught, id)
+				rules = append(rules, c.rules...)
+			}
+		}
+		prop := ""
+		mf := filepath.Join(filepath.Dir(pf), "meta.json")
+		var meta map[string]interface{}
+		if b, err := os.ReadFile(mf); err == nil && json.Unmarshal(b, &meta) == nil {
+			if s, ok := meta["property"].(string); ok {
+				prop = s
+			} else if s, ok := meta["written_for_property"].(string); ok {
+				prop = s
+			}
+		}
+		switch kind {
+		case "seeded":
+			own := false
+			for _, c := range caught {
+				if c == prop {
+					own = true
+				}
+			}
+			if !own {
+				exit = 1
+				fmt.Printf("MISSED %s (property %s): reported only by %v\n", name, prop, caught)
+			}
+			if meta != nil {
+				if caught == nil {
+					caught = []string{}
+				}
+				meta["caught_by"] = caught
+				if b, err := json.MarshalIndent(meta, "", " "); err == nil {
+					os.WriteFile(mf, b, 0o644)
+				}
+			}
+		default:
+			if len(caught) > 0 {
+				exit = 1
+				fmt.Printf("FALSE-ALARM %s: %v\n", name, rules)
+			}
+		}
+		r := strings.Join(rules, " ")
+		if r == "" {
+			r = "—"
+		}
+		fmt.Fprintf(&md, "| %s | %s | %s |\n", name, prop, r)
+		fmt.Printf("%s: %s\n", name, r)
+	}
+	os.WriteFile(filepath.Join(verif, kind, "MATRIX.md"), []byte(md.String()), 0o644)
+	fmt.Printf("%d %s changes x %d checks\n", len(patches), kind, len(ids))
+	return exit
+}
